@@ -13,7 +13,42 @@ import (
 	"seata.apache.org/seata-go/pkg/tm"
 
 	"verifh/hutil"
+	pa "verifh/tccrun/pa/params"
+	pb "verifh/tccrun/pb/params"
 )
+
+// two DIFFERENT function-local types, both printed "tccrun.Params" by reflect.Type.String()
+func localParamsA(r *hutil.Rng) interface{} {
+	type Params struct {
+		From   string `tccParam:"from"`
+		Amount int64  `tccParam:"amount"`
+	}
+	return Params{From: rStr(r), Amount: rInt(r)}
+}
+
+func localParamsB(r *hutil.Rng) interface{} {
+	type Params struct {
+		Flag   bool    `tccParam:"flag"`
+		To     string  `tccParam:"to"`
+		Amount float64 `tccParam:"amount"`
+		Extra  []byte  `tccParam:"extra"`
+	}
+	return Params{Flag: r.Chance(1, 2), To: rStr(r), Amount: rFloat(r), Extra: rBytes(r)}
+}
+
+// the same-named families: shape -> constructor
+var sameName = map[string]func(r *hutil.Rng) interface{}{
+	"local-params-a": localParamsA,
+	"local-params-b": localParamsB,
+	"pkg-params-a": func(r *hutil.Rng) interface{} {
+		return pa.Params{Account: rStr(r), Amount: rInt(r), Note: rStr(r)}
+	},
+	"pkg-params-b": func(r *hutil.Rng) interface{} {
+		return &pb.Params{Urgent: r.Chance(1, 2), Memo: rStr(r), Ratio: rFloat(r), Amount: rInt(r)}
+	},
+}
+var sameNameOrder = []string{"local-params-a", "local-params-b", "pkg-params-b", "pkg-params-a"}
+var seenSameName []string
 
 // ---- the fixed family of hand-declared parameter types --------------------------
 type pTagged struct {
@@ -176,7 +211,7 @@ func genStructOf(r *hutil.Rng) interface{} {
 }
 
 func genParam(r *hutil.Rng) (string, interface{}) {
-	switch r.Intn(16) {
+	switch r.Intn(18) {
 	case 0:
 		return "nil", nil
 	case 1:
@@ -220,6 +255,9 @@ func genParam(r *hutil.Rng) (string, interface{}) {
 	case 12:
 		x, y := 7, "s"
 		return "ptr-non-struct", []interface{}{&x, &y}[r.Intn(2)]
+	case 13, 14:
+		s := sameNameOrder[r.Intn(len(sameNameOrder))]
+		return s, sameName[s](r)
 	case 10:
 		return "non-struct", []interface{}{5, "str", 2.5, true}[r.Intn(4)]
 	default:
@@ -250,11 +288,14 @@ func Run(args map[string]string) {
 		return
 	}
 	if replay := hutil.ArgStr(args, "replay", ""); replay != "" {
-		// re-run one recorded case: a phase-two request is self-contained; a prepare is rebuilt as a
-		// reflect.StructOf value from its described fields when they are of simple kinds
+		// re-run one recorded case: a phase-two request is self-contained; a prepare is re-run after the
+		// same-named parameter types seen before it in its process (Before) and after the earlier prepares of
+		// its global transaction (prefix) on the same context; parameters are rebuilt from their described
+		// fields (the real hand-declared type for the same-named families, reflect.StructOf otherwise)
 		var rc struct {
-			Kind string          `json:"kind"`
-			Case json.RawMessage `json:"case"`
+			Kind   string            `json:"kind"`
+			Case   json.RawMessage   `json:"case"`
+			Prefix []json.RawMessage `json:"prefix"`
 		}
 		if b, err := os.ReadFile(replay); err == nil && json.Unmarshal(b, &rc) == nil {
 			if rc.Kind == "q" {
@@ -265,12 +306,35 @@ func Run(args map[string]string) {
 					out.Phase2 = append(out.Phase2, q)
 				}
 			} else {
-				var pc PrepareCase
-				if json.Unmarshal(rc.Case, &pc) == nil {
-					if param, ok := rebuildParam(&pc); ok {
+				var pcs []PrepareCase
+				ok := true
+				for _, raw := range append(rc.Prefix, rc.Case) {
+					var pc PrepareCase
+					if json.Unmarshal(raw, &pc) != nil {
+						ok = false
+					}
+					pcs = append(pcs, pc)
+				}
+				if ok && len(pcs) > 0 {
+					last := pcs[len(pcs)-1]
+					wr := hutil.NewRng(seed)
+					for _, shape := range last.Before {
+						if mk, known := sameName[shape]; known {
+							warm := PrepareCase{Action: 0, InGtx: true, Xid: "warm-up", RegMode: "ok", Shape: shape}
+							runPrepare(newTxContext(true, "warm-up"), &warm, mk(wr))
+						}
+					}
+					ctx := newTxContext(last.InGtx, last.Xid)
+					for i := range pcs {
+						pc := pcs[i]
+						param, rebuilt := rebuildParam(&pc)
+						if !rebuilt {
+							out.Prepares = nil
+							break
+						}
 						pc.Events, pc.Oracle, pc.Outcome, pc.Detail = nil, "", "", ""
 						pc.Fields, pc.IsStruct = describeFields(param)
-						runPrepare(&pc, param)
+						runPrepare(ctx, &pc, param)
 						out.Prepares = append(out.Prepares, pc)
 					}
 				}
@@ -280,61 +344,86 @@ func Run(args map[string]string) {
 		return
 	}
 	rng := hutil.NewRng(seed)
-	for i := 0; i < n; i++ {
-		r := rng.Fork(uint64(i))
-		shape, param := genParam(r)
-		pc := PrepareCase{Action: r.Intn(len(names)), InGtx: !r.Chance(1, 10), Xid: fmt.Sprintf("127.0.0.1:8091:%d", 1000+r.Intn(100000)),
-			RegMode: "ok", Shape: shape}
-		if r.Chance(1, 5) {
-			pc.RegMode = []string{"failcode", "error"}[r.Intn(2)]
+	seq := 0
+	for i := 0; i < n; seq++ {
+		rs := rng.Fork(uint64(seq) + 1<<32)
+		// one (possibly absent) global transaction: ONE context, 1..4 prepares on it - the same action again
+		// (one transfer debiting two accounts) or different actions interleaved
+		seqLen := []int{1, 1, 2, 2, 3, 4}[rs.Intn(6)]
+		inGtx := !rs.Chance(1, 10)
+		xid := fmt.Sprintf("127.0.0.1:8091:%d", 1000+rs.Intn(100000))
+		sameAction, action0 := rs.Chance(1, 2), rs.Intn(len(names))
+		var forced []string
+		if seq < 2 {
+			// both same-named pairs are always prepared in one process, in this order (first wave of every run)
+			seqLen, inGtx, sameAction = 2, true, seq == 0
+			forced = sameNameOrder[2*seq : 2*seq+2]
 		}
-		pc.Fields, pc.IsStruct = describeFields(param)
-		runPrepare(&pc, param)
-		out.Prepares = append(out.Prepares, pc)
-		out.Dist["prepare."+shape]++
-		out.Dist["prepare.reg-"+pc.RegMode]++
-		// phase two: replay what the coordinator would send for this branch, and variations
-		var raw string
-		for _, e := range pc.Events {
-			if e.Kind == "register" {
-				raw = e.DataRaw
+		ctx := newTxContext(inGtx, xid)
+		for pos := 0; pos < seqLen; pos, i = pos+1, i+1 {
+			r := rng.Fork(uint64(i))
+			shape, param := genParam(r)
+			if forced != nil {
+				shape, param = forced[pos], sameName[forced[pos]](r)
 			}
-		}
-		nreq := 1 + r.Intn(3)
-		for j := 0; j < nreq; j++ {
-			q := Phase2Case{Method: []string{"commit", "rollback"}[r.Intn(2)], Resource: names[pc.Action], Known: true, Xid: pc.Xid,
-				Branch: pc.BID, MsgID: int32(r.Next()), AppKind: "captured", AppData: raw, Captured: pc.Fields, CapAction: names[pc.Action],
-				UserFails: r.Chance(1, 4), BType: int(branch.BranchTypeTCC)}
-			if raw == "" {
-				q.AppKind = "empty"
+			pc := PrepareCase{Action: r.Intn(len(names)), InGtx: inGtx, Xid: xid, RegMode: "ok", Shape: shape, Seq: seq, Pos: pos}
+			if sameAction {
+				pc.Action = action0
 			}
-			switch r.Intn(10) {
-			case 0:
-				q.Resource, q.Known = []string{"nosuch", "", "actalpha", "actAlpha "}[r.Intn(4)], false
-			case 1:
-				q.AppKind, q.AppData, q.Captured = "empty", "", nil
-			case 2:
-				q.AppKind, q.AppData, q.Captured = "noctx", hex.EncodeToString([]byte(noctx[r.Intn(len(noctx))])), nil
-			case 3:
-				q.AppKind, q.AppData, q.Captured = "malformed", hex.EncodeToString([]byte(malformed[r.Intn(len(malformed))])), nil
-			case 4:
-				// another registered action receives this branch's data
-				q.Resource = names[(pc.Action+1)%len(names)]
+			if r.Chance(1, 5) && forced == nil {
+				pc.RegMode = []string{"failcode", "error"}[r.Intn(2)]
 			}
-			reps := 1
-			if r.Chance(1, 5) {
-				reps = 2 // the coordinator repeats the request
+			if _, ok := sameName[shape]; ok {
+				pc.Before = append([]string{}, seenSameName...)
+				seenSameName = append(seenSameName, shape)
 			}
-			for k := 0; k < reps; k++ {
-				qq := q
-				runPhase2(&qq)
-				out.Phase2 = append(out.Phase2, qq)
-				out.Dist["phase2."+qq.AppKind]++
-				if !qq.Known {
-					out.Dist["phase2.unknown-resource"]++
+			pc.Fields, pc.IsStruct = describeFields(param)
+			runPrepare(ctx, &pc, param)
+			out.Prepares = append(out.Prepares, pc)
+			out.Dist["prepare."+shape]++
+			out.Dist["prepare.reg-"+pc.RegMode]++
+			out.Dist[fmt.Sprintf("prepare.position-%d-in-its-transaction", pos)]++
+			// phase two: replay what the coordinator would send for this branch, and variations
+			var raw string
+			for _, e := range pc.Events {
+				if e.Kind == "register" {
+					raw = e.DataRaw
 				}
-				if qq.UserFails {
-					out.Dist["phase2.user-fails"]++
+			}
+			nreq := 1 + r.Intn(3)
+			for j := 0; j < nreq; j++ {
+				q := Phase2Case{Method: []string{"commit", "rollback"}[r.Intn(2)], Resource: names[pc.Action], Known: true, Xid: pc.Xid,
+					Branch: pc.BID, MsgID: int32(r.Next()), AppKind: "captured", AppData: raw, Captured: pc.Fields, CapAction: names[pc.Action],
+					UserFails: r.Chance(1, 4), UserBool: r.Chance(2, 3), BType: int(branch.BranchTypeTCC)}
+				if raw == "" {
+					q.AppKind = "empty"
+				}
+				switch r.Intn(10) {
+				case 0:
+					q.Resource, q.Known = []string{"nosuch", "", "actalpha", "actAlpha "}[r.Intn(4)], false
+				case 1:
+					q.AppKind, q.AppData, q.Captured = "empty", "", nil
+				case 2:
+					q.AppKind, q.AppData, q.Captured = "noctx", hex.EncodeToString([]byte(noctx[r.Intn(len(noctx))])), nil
+				case 3:
+					q.AppKind, q.AppData, q.Captured = "malformed", hex.EncodeToString([]byte(malformed[r.Intn(len(malformed))])), nil
+				case 4:
+					// another registered action receives this branch's data
+					q.Resource = names[(pc.Action+1)%len(names)]
+				}
+				reps := 1
+				if r.Chance(1, 5) {
+					reps = 2 // the coordinator repeats the request
+				}
+				for k := 0; k < reps; k++ {
+					qq := q
+					runPhase2(&qq)
+					out.Phase2 = append(out.Phase2, qq)
+					out.Dist["phase2."+qq.AppKind]++
+					if !qq.Known {
+						out.Dist["phase2.unknown-resource"]++
+					}
+					out.Dist[fmt.Sprintf("phase2.user-returns-(%v,err=%v)", qq.UserBool, qq.UserFails)]++
 				}
 			}
 		}
@@ -345,6 +434,52 @@ func Run(args map[string]string) {
 // rebuildParam reconstructs a parameter from the described fields of a recorded prepare case
 // (exported fields of kind int / float / string / bool / []byte; nil and non-struct shapes directly)
 func rebuildParam(pc *PrepareCase) (interface{}, bool) {
+	if mk, known := sameName[pc.Shape]; known {
+		// the real hand-declared type, its exported fields set from the recorded values
+		proto := reflect.ValueOf(mk(hutil.NewRng(1)))
+		ptr := proto.Kind() == reflect.Ptr
+		if ptr {
+			proto = proto.Elem()
+		}
+		v := reflect.New(proto.Type()).Elem()
+		for i, f := range pc.Fields {
+			if i >= v.NumField() || !f.Exported {
+				continue
+			}
+			fv := v.Field(i)
+			switch f.Value.T {
+			case "int":
+				n, _ := new(big.Int).SetString(f.Value.Z, 10)
+				if n != nil && fv.Kind() == reflect.Int64 {
+					fv.SetInt(n.Int64())
+				}
+			case "flt":
+				m, _ := new(big.Float).SetString(f.Value.Z)
+				if m != nil && fv.Kind() == reflect.Float64 {
+					x, _ := m.Float64()
+					fv.SetFloat(math.Ldexp(x, f.Value.E))
+				}
+			case "str":
+				b, _ := hex.DecodeString(f.Value.H)
+				if fv.Kind() == reflect.String {
+					fv.SetString(string(b))
+				}
+			case "bytes":
+				b, _ := hex.DecodeString(f.Value.H)
+				if fv.Kind() == reflect.Slice {
+					fv.SetBytes(b)
+				}
+			case "bool":
+				if fv.Kind() == reflect.Bool {
+					fv.SetBool(f.Value.B)
+				}
+			}
+		}
+		if ptr {
+			return v.Addr().Interface(), true
+		}
+		return v.Interface(), true
+	}
 	if !pc.IsStruct {
 		if pc.Shape == "nil" {
 			return nil, true
